@@ -16,7 +16,7 @@ RULE = (
     "mnemonic_case upper, preserve and lower; for every writer configuration cfg within k deviations of the default over "
     "(version None/1.2/2.0, wrap None/True/False, len_numeric_field, spacer, lhs_spacer, data_width, mnemonics_header, "
     "data_section_header) at equal numeric precision: canon(read(write(x, cfg))) == canon(read(write(x, cfg0))) in "
-    "numeric mode ignoring the VERS and WRAP items; non-trivial = a (input, case, cfg) triple whose output text "
+    "numeric mode ignoring the VERS and WRAP items; the same object written with one configuration and then another (20 ordered pairs over default / 1.2 / 2.0 / wrap on / wrap off); the WRAP item edited by value between two wrapped writes; non-trivial = a (input, case, cfg) triple whose output text "
     "differs from the default output"
 )
 ASSUMPTIONS = [
